@@ -362,6 +362,11 @@ func TestC05(t *testing.T) {
 				}
 			}
 		}
+		// more than 256 chunks: the chunk counter carries into its second byte
+		if s.Mine(n) {
+			yield(c05Case{TapeSeed: 99, PlainLen: 257*chunk + 1000, PlainSeed: 1, Recs: []hx.RecSpec{{Kind: "x25519", Idx: 1}}})
+		}
+		n++
 		for l := 0; l <= 150; l++ { // armor line residues
 			if s.Mine(n) {
 				yield(c05Case{TapeSeed: uint64(n), PlainLen: l, PlainSeed: 1, Recs: []hx.RecSpec{{Kind: "x25519", Idx: 1}}, Armor: true})
@@ -375,6 +380,12 @@ func TestC05(t *testing.T) {
 		l := genPlainLen(t, 3)
 		return c05Case{TapeSeed: rapid.Uint64().Draw(t, "tape"), PlainLen: l, PlainSeed: rapid.Uint64Range(0, 100).Draw(t, "ps"), Recs: c05GenRecs(t), Segs: genSegs(t, l), Armor: rapid.Bool().Draw(t, "armor")}
 	}, enc)
+	pbt.Each(s, "decrypt-reference-written", func(yield func(c05DecCase)) {
+		if s.Shard == 0 {
+			yield(c05DecCase{Seed: 8, PlainLen: 257*chunk + 1000, Recs: []hx.RecSpec{{Kind: "x25519", Idx: 2}}})
+			s.St.Exhaust("a reference-written 258-chunk file (16 MiB)", 1)
+		}
+	}, dec)
 	pbt.Rapid(s, "decrypt-reference-written", s.N(1500, 10000), func(t *rapid.T) c05DecCase {
 		return c05DecCase{Seed: rapid.Uint64Range(0, 1<<40).Draw(t, "seed"), PlainLen: genPlainLen(t, 3), Recs: c05GenRecs(t), Armor: rapid.Bool().Draw(t, "armor"), CRLF: rapid.Bool().Draw(t, "crlf")}
 	}, dec)
